@@ -54,3 +54,54 @@ Proof.
   f_equal. fold q. symmetry. unfold log2pi, nw_log_2pi. apply (ll_is_log_density D q (W * N) HD).
 Qed.
 Print Assumptions C05_code_point_is_log_density.
+
+(* ---- the likelihood WRAPPERS AS TRANSLATED in skeleton mode (Gen/G_ll_point.v, Gen/G_ll_table.v; facts: Proofs/GenEquivLW.v): the
+   kernel of one point gets the cluster's own stored mean, inverse covariance and log-determinant; for the table, every cluster
+   0 .. K-1, once and in order, has its inverse covariance set to its train_inverse and its log-determinant to component [1] of
+   slogdet OF THAT SAME matrix, and the table kernel gets the stacks built from the so-updated model and the caller's data ---- *)
+From Ticc Require Import Gen.PySkel Gen.G_ll_point Gen.G_ll_table Proofs.GenEquivLW.
+Section SkelLW05.
+  Local Open Scope string_scope.
+  Variable V : Type.
+  Variable vnone : V.
+  Variable vint : Z -> V.
+  Variable as_int : V -> option Z.
+  Variable veq : V -> V -> bool.
+  Variable getattr : V -> string -> V.
+  Variable truthy : V -> bool.
+  Variable is_none : V -> bool.
+  Variables vtrue vfalse : V.
+  Variable as_list : V -> list V.
+  Variable vglobal : string -> V.
+  Variable oracle : list (event V) -> string -> list V -> res V.
+  Let table_run := GenEquivLW.table_run V vint getattr oracle.
+  Theorem C05_code_point_wrapper (point cluster window_size num_data_series r : V) (log log' : list (event V)) :
+    g_point_log_likelihood V getattr oracle point cluster window_size num_data_series log = (Ret r, log') ->
+    log' = (log ++ [Ev "point_log_likelihood_fast"
+                       [point; getattr cluster "stacked_data_mean"; getattr cluster "inverse_covariance";
+                        getattr cluster "log_determinant"; window_size; num_data_series]])%list /\
+    oracle log "point_log_likelihood_fast"
+           [point; getattr cluster "stacked_data_mean"; getattr cluster "inverse_covariance";
+            getattr cluster "log_determinant"; window_size; num_data_series] = Ret r.
+  Proof. intros; eapply ll_point_returns; eassumption. Qed.
+  Theorem C05_code_table_wrapper (model stacked_training_data r : V) (log log' : list (event V)) (K : Z) :
+    as_int (getattr (getattr model "arguments") "num_clusters") = Some K ->
+    g_all_points_all_clusters_log_likelihood V vint as_int getattr oracle model stacked_training_data log = (Ret r, log') ->
+    exists evs mK mus thetas logdets,
+      table_run (Z.to_nat K) 0 model log evs mK /\
+      length evs = (4 * Z.to_nat K)%nat /\
+      log' = (log ++ evs
+                  ++ [Ev f_mus [mK]; Ev f_thetas [mK]; Ev f_logdets [mK];
+                      Ev f_table_fast [getattr (getattr mK "arguments") "window_size";
+                                       getattr (getattr mK "arguments") "num_clusters";
+                                       mus; thetas; logdets; stacked_training_data]])%list /\
+      oracle (log ++ evs)%list f_mus [mK] = Ret mus /\
+      oracle (log ++ evs ++ [Ev f_mus [mK]])%list f_thetas [mK] = Ret thetas /\
+      oracle (log ++ evs ++ [Ev f_mus [mK]; Ev f_thetas [mK]])%list f_logdets [mK] = Ret logdets /\
+      oracle (log ++ evs ++ [Ev f_mus [mK]; Ev f_thetas [mK]; Ev f_logdets [mK]])%list f_table_fast
+             [getattr (getattr mK "arguments") "window_size"; getattr (getattr mK "arguments") "num_clusters";
+              mus; thetas; logdets; stacked_training_data] = Ret r.
+  Proof. intros; eapply ll_table_returns; eassumption. Qed.
+End SkelLW05.
+Print Assumptions C05_code_point_wrapper.
+Print Assumptions C05_code_table_wrapper.
